@@ -27,6 +27,15 @@ theorem consts_ok :
     dayNumYo MIN_YEAR 1 = -95746129 ∧ dayNumYo MAX_YEAR 365 = 95745399 ∧
     dayNum 1970 1 1 = 719163 ∧ weekdayOf 719163 = 3 := by decide
 
+/-- the literals inside `YearFlags::{ndays, isoweek_delta, nisoweeks}`, re-extracted from the source
+on this run, are the ones the model's definitions were written against (`366 − flags>>3`, the
+weekday mask 7 with "< 3 ⇒ + 7", and the 53-week mask `0b0000_0100_0000_0110`) -/
+theorem year_flag_literals_ok :
+    NDAYS_BASE = 366 ∧ NDAYS_SHIFT = 3 ∧ ISOWEEK_DELTA_MASK = 7 ∧ ISOWEEK_DELTA_MIN = 3 ∧
+    ISOWEEK_DELTA_ADD = 7 ∧ NISOWEEKS_MASK = 1030 ∧
+    (∀ f < 16, YearFlags.ndays f = (NDAYS_BASE - (f / 2 ^ NDAYS_SHIFT.toNat : Nat)).toNat) ∧
+    (∀ f < 16, (YearFlags.nisoweeks f : Int) = 52 + (NISOWEEKS_MASK / 2 ^ f) % 2) := by decide
+
 /-- year flags of **every** year (400-year periodicity of the leap rule and of the weekday):
 the table lookup yields the leap status and the weekday of Dec 31 of the previous year -/
 theorem year_flags_spec (y : Int) :
